@@ -57,6 +57,16 @@ CHECKS = {
    "Delivered (id, op, controls) sequence must equal the model for every partition; no message before its last byte; after each delivery exactly the following bytes remain. Exhaustive over all split points for streams <= 600 bytes.",
    "Trusted base: harness BER writer; Framed's append-then-decode contract emulated in the decoder lane, real Framed in the e2e lane.",
    "DESIGN.md §3 C06", "harness"),
+ "C10": ("exploration",
+   "property-based testing (proptest), model-based: generated server item sequences x stream variant x call script of next/finish/state, every return value compared with a reference state machine on the simulated connection",
+   "Direct, EntriesOnly, user pass-through adapter, both chain orders and search(); scripts that leave the happy path (next after end, early finish, next after finish, double finish), connection cuts; every call result and every state() must equal the reference state machine of DESIGN.md Appendix B.",
+   "Trusted base: reference state machine in harness/src/props/c10.rs, SIM, response model.",
+   "DESIGN.md §3 C10, Appendix B", "harness"),
+ "C13": ("exploration",
+   "property-based testing (proptest) of generated operation histories on the simulated connection; invariant (empty id table, empty routing maps) checked at every virtual-clock quiescent point via the id-table and gauge hooks",
+   "Histories up to 42 steps mixing every operation kind, timeouts with late replies, direct/adapted/paged searches read to the end or finished early, abandons of finished/timed-out/in-flight/never-issued ids and unsolicited responses; after every step nothing may remain reserved or routed.",
+   "Trusted base: hooks verif_msgmap/verif_gauges (read-only), SIM quiescence (paused clock).",
+   "DESIGN.md §3 C13", "harness"),
 }
 
 NOT_YET = {}
